@@ -8,7 +8,8 @@ every report through the violation machinery and aggregates the driver's counter
   exhaustive  all dims 0..3 (thorough 0..4) x entries in {-1,0,1,2}; all assignments when the operands have
               <= 8 (thorough 10) entries, otherwise a deterministic subset of 4096 (65536); exact comparison
   random      sizes <= 30, constructed condition number: identities judged for kappa <= 1e4 with tolerance
-              100*n*eps*kappa*scale; kappa 1e8..1e14 and exactly singular: exception or finite result
+              100*n*eps*kappa*scale; kappa 1e8..1e14 and exactly singular: only "no sanitizer report / crash"
+              (non-finite results without an exception are counted in the evidence, not reported)
   history     random sequences (<= 30 steps) of copy/assign/move/reset/set/write over pools of 4 objects of
               Mat, Vec, SymMat, BandMat, CovMat against a shadow model; sources mutated after every copy
   conform     non-conforming operands for every operator/function => Exception::matvec
@@ -43,7 +44,7 @@ def _sabotage(sub):
 
 class Shard:
     def __init__(self):
-        self.K, self.k, self.R, self.V, self.S = {}, {}, {}, [], []
+        self.K, self.k, self.R, self.V, self.S, self.F = {}, {}, {}, [], [], {}
         self.crashes = []          # (case id, label, RunResult, argv)
         self.timeouts = []
         self.done = 0
@@ -67,6 +68,9 @@ class Shard:
                 parts = [p.strip() for p in ln[2:].split(" | ")]
                 if len(parts) >= 3:
                     self.V.append((parts[0], " | ".join(parts[1:-1]), parts[-1]))
+            elif ln.startswith("F "):
+                key, n = ln[2:].rsplit(" ", 1)
+                self.F[key] = self.F.get(key, 0) + int(n)
             elif ln.startswith("S "):
                 self.S.append(ln[2:])
             elif ln.startswith("N "):
@@ -169,6 +173,8 @@ def run(tier, seed):
             ck.cls(cls, cnt)
         for name, v in sh.R.items():
             ck.ratio(name, v, 1.0)
+        for key, cnt in sh.F.items():       # observed, not judged (the property is silent on singular operands)
+            ck.count("nonfinite_without_exception:" + key, cnt)
         ck.count("cases_" + sub, n)
         for s in sh.S[:1]:
             samples.setdefault(sub, []).append(s)
